@@ -91,3 +91,27 @@ pub open spec fn stsd_at(d: Seq<u8>, q: int, b: StsdBox) -> bool {
     &&& (b.avc1 matches Some(x) ==> avc1_at(d, child_q(d, p), child_size(d, p), x))
     &&& (b.mp4a matches Some(x) ==> mp4a_at(d, child_q(d, p), child_size(d, p), x))
 }
+
+// ---- avcC, encode side: reference bytes (ISO/IEC 14496-15 5.3.3.1; reserved bits are ones)
+pub open spec fn nal_bytes(n: NalUnit) -> Seq<u8> { be_bytes(n.bytes@.len(), 2) + n.bytes@ }
+pub open spec fn nals_bytes(v: Seq<NalUnit>, n: int) -> Seq<u8>
+    decreases n
+{
+    if n <= 0 { Seq::<u8>::empty() } else { nals_bytes(v, n - 1) + nal_bytes(v[n - 1]) }
+}
+pub open spec fn avcc_head(b: AvcCBox) -> Seq<u8> {
+    hdr_bytes(avcc_len(b) as u64, 0x61766343) + seq![b.configuration_version, b.avc_profile_indication, b.profile_compatibility, b.avc_level_indication,
+        b.length_size_minus_one | 0xFC, (b.sequence_parameter_sets@.len() as u8) | 0xE0]
+}
+pub open spec fn avcc_bytes(b: AvcCBox) -> Seq<u8> {
+    avcc_head(b) + nals_bytes(b.sequence_parameter_sets@, b.sequence_parameter_sets@.len() as int)
+        + seq![b.picture_parameter_sets@.len() as u8] + nals_bytes(b.picture_parameter_sets@, b.picture_parameter_sets@.len() as int)
+}
+pub proof fn lemma_nals_bytes_len(v: Seq<NalUnit>, n: int)
+    requires 0 <= n <= v.len(), nals_wire(v)
+    ensures nals_bytes(v, n).len() == nal_sum(v, n)
+    decreases n
+{
+    broadcast use lemma_be_bytes_len;
+    if n > 0 { lemma_nals_bytes_len(v, n - 1); }
+}
